@@ -1,0 +1,24 @@
+//go:build verif
+
+package module
+
+// Machine-checked contracts for the universal constructors of Module.go (comment-only; read by /verif/engine).
+// Each argument form is stated with the same specification functions as the class-level constructor.
+
+//@ assume func CDCN
+//@   nilok
+//@   nopanic
+//@   ensures result != nil
+//@ assume func reflect.ValueOf
+//@   nopanic
+
+//@ func Association
+//@   props C20
+//@   nilok
+//@   requires len(arguments) == 2 && typeis(arguments[0], K) && typeis(arguments[1], V)
+//@   ensures[C20] result != nil && akey(result) == arguments[0] && aval(result) == arguments[1]
+//@   loop 1:
+//@     invariant -1 <= rangeindex && rangeindex <= 1 && notation != nil
+//@     invariant rangeindex >= 0 ==> key == arguments[0]
+//@     invariant rangeindex >= 1 ==> value == arguments[1]
+//@     decreases 2 - rangeindex
